@@ -196,4 +196,23 @@ theorem C12_cex_swapped_direction :
     (diffProject sqliteEnv simLeft targetLeft).isEmpty true = false ∧
     (diffProject sqliteEnv targetLeft simLeft).isEmpty true = true := by decide
 
+/-! ## `Diff.is_empty`: what the gate finally asks -/
+
+/-- `Diff.is_empty(ignore_apps)` over the two parts of a difference (`changed`, `deleted`), as the source states it -/
+def diffIsEmpty (ignoreApps : Bool) (changedEmpty deletedEmpty : Bool) : Bool :=
+  if ignoreApps then changedEmpty else deletedEmpty && changedEmpty
+
+/-- **a residual change is never "empty"**, with or without `--purge` (`ignore_apps` false or true): whatever the
+`deleted` part looks like, a non-empty `changed` part makes the gate refuse -/
+theorem C12_residual_change_never_empty (ignoreApps deletedEmpty : Bool) :
+    diffIsEmpty ignoreApps false deletedEmpty = false := by
+  cases ignoreApps <;> cases deletedEmpty <;> rfl
+
+/-- the source's `is_empty` is this function (read by the translator on every run) -/
+theorem C12_source_is_empty : DEvo.Generated.diffIsEmpty = "and" := by decide
+
+/-- the De Morgan slip `not (deleted and changed)`: with nothing deleted everything counts as empty -/
+theorem C12_cex_de_morgan :
+    (fun (changedEmpty deletedEmpty : Bool) => !(!deletedEmpty && !changedEmpty)) false true = true := by decide
+
 end DEvo.Props.C12
